@@ -1142,6 +1142,9 @@ impl<'a> World<'a> {
         let n_tx = self.route_egress(d, step_idx, egress);
         let now = self.now;
         drain_slots(&mut self.duts[d].slots, &mut self.trace.events, d, step_idx, now, true);
+        // events are drained while the daemon runs (bounded channels): the order across channels within one step depends
+        // on when the drains happened; make it canonical (by channel, order within a channel kept)
+        self.trace.events[ev_before..].sort_by_key(|e| e.slot);
         let n_ev = self.trace.events.len() - ev_before;
         self.trace.steps.push(Step {
             idx: step_idx,
